@@ -522,6 +522,10 @@ def _read_offline(input, skip=0, max_read=None, **kwargs):
         else:
             max_read = round(max_read * audio_source.sampling_rate)
     data = audio_source.read(max_read)
+    if data is None:
+        # nothing (left) to read: empty source, `skip` beyond the end of
+        # data or `max_read` of 0
+        data = b""
     audio_source.close()
     return (
         data,
